@@ -45,7 +45,8 @@ def parseV4 (s : List Char) : Except Err Nat :=
   | [some a, some b, some c, some d] => .ok (((a * 256 + b) * 256 + c) * 256 + d)
   | _ => .error .addressValue
 
-def natToDec (n : Nat) : List Char := (toString n).toList
+/-- `str(n)` (list-based, so that the canonical spelling can be reasoned about) -/
+def natToDec (n : Nat) : List Char := Secrets.decDigits n
 
 def showV4 (n : Nat) : List Char :=
   natToDec (n / 16777216 % 256) ++ ['.'] ++ natToDec (n / 65536 % 256) ++ ['.'] ++
